@@ -104,6 +104,17 @@ def main():
     else:
         hists = [gen_bounce_history(ck.rng, i, thorough) for i in range(400 if thorough else 110)]
         hists += [gen_bounce_history(ck.rng, 1000 + i, thorough, kind=k) for i, k in enumerate(["vwild", "vcatch", "vdom"] * (10 if thorough else 3))]
+        # the assembly of the notice meets a failing call (each open / read of the bounce record and of the message in turn): the
+        # notice must not go out without its paragraphs - it is tried again later
+        import errno
+        for obj in ("bounce", "mess"):
+            for call in ("open", "read"):
+                for k in range(1, 5 if thorough else 4):
+                    h = gen_bounce_history(ck.rng, 1200 + len(hists), thorough, kind="default")
+                    h["fault"] = {"role": "qmail-send", "call": call, "k": k, "what": "fail %d" % errno.ENFILE, "obj": obj}
+                    h["id"] = "bounce-fault-%s-%s-%d" % (call, obj, k)
+                    h["strict"] = 0
+                    hists.append(h)
     runs = qsengine.run_histories(ck, tree, hists)
     bad, vres = qsengine.judge(ck, runs)
     ck.add_tlc("QSendTrace", vres)
